@@ -32,8 +32,9 @@ Body == [s \in 1..Len(Tr.snapdefs) |->
             ts      |-> Tr.snapdefs[s].ts,
             files   |-> Rng(Tr.snapdefs[s].files)]]     \* set of <<path id, version id>>
 
-\* absent: how many times this command was told "<<family, chunk>> is not stored" and has not uploaded it since (C07: one upload per negative answer)
-Idle == [kind |-> "idle", u |-> "", D |-> {}, had |-> {}, refuse |-> FALSE, repeat |-> FALSE, absent |-> <<>>]
+\* absent: how many times this command was told "<<family, chunk>> is not stored" and has not uploaded it since; mine: what it uploaded itself
+\* (C07: a command does not send a payload it has already sent, unless two of its workers were both told "absent")
+Idle == [kind |-> "idle", u |-> "", D |-> {}, had |-> {}, refuse |-> FALSE, repeat |-> FALSE, absent |-> <<>>, mine |-> {}]
 Tokens(o, x) == IF x \in DOMAIN o.absent THEN o.absent[x] ELSE 0
 WithTokens(a, x, k) == [y \in DOMAIN a \cup {x} |-> IF y = x THEN k ELSE a[y]]
 
@@ -56,7 +57,7 @@ Apply(s, e) ==
                                 refuse |-> e.k = "del" /\ (e.unknown \/ ~(Rng(e.D) \subseteq Readable(s, e.u))),
                                 \* C07: the very same data was already snapshotted by a member of the family and nothing of it was removed since
                                 repeat |-> e.k = "snap" /\ <<FamOfU(e.u), Rng(e.want)>> \in s.snapped,
-                                absent |-> <<>>]]
+                                absent |-> <<>>, mine |-> {}]]
     [] e.a = "exists" ->
          IF e.r \/ s.op[e.p].kind # "snap" THEN s
          ELSE [s EXCEPT !.op[e.p].absent = WithTokens(@, <<e.f, e.c>>, Tokens(s.op[e.p], <<e.f, e.c>>) + 1)]
@@ -64,7 +65,8 @@ Apply(s, e) ==
          [s EXCEPT !.chunks = @ \cup {<<e.f, e.c>>},
                    !.bad = IF e.good THEN @ \ {<<e.f, e.c>>} ELSE @ \cup {<<e.f, e.c>>},
                    !.op[e.p].absent = IF Tokens(s.op[e.p], <<e.f, e.c>>) > 0
-                                      THEN WithTokens(@, <<e.f, e.c>>, Tokens(s.op[e.p], <<e.f, e.c>>) - 1) ELSE @]
+                                      THEN WithTokens(@, <<e.f, e.c>>, Tokens(s.op[e.p], <<e.f, e.c>>) - 1) ELSE @,
+                   !.op[e.p].mine = @ \cup {<<e.f, e.c>>}]
     [] e.a = "delc" -> [s EXCEPT !.chunks = @ \ {<<e.f, e.c>>}, !.bad = @ \ {<<e.f, e.c>>}, !.snapped = {x \in @ : x[1] # e.f}]
     [] e.a = "puts" -> [s EXCEPT !.snaps = @ \cup {e.s}, !.snapped = @ \cup {<<Body[e.s].fam, Rng(e.want)>>}]
     [] e.a = "dels" -> [s EXCEPT !.snaps = @ \ {e.s}]
@@ -106,10 +108,11 @@ Clause(s, e) ==
   CASE e.a = "putc" ->
          LET o == s.op[e.p] IN
          IF On("P:GcWritesNothing") /\ (o.kind \in {"del", "clean"}) THEN "P:GcWritesNothing"
-         \* no payload for a chunk the family held when the command began, nor for one that is stored right now unless this command
-         \* was told it is absent once per upload (two workers racing on the same new chunk are legitimate, blind re-uploads are not)
+         \* no payload for a chunk the family held when the command began, nor for one this command has already sent itself - unless it was
+         \* told "absent" once per upload (two of its workers racing on the same new chunk are legitimate, blind re-uploads are not).
+         \* A chunk that ANOTHER client stored in the meantime is not held against the command (inherent race, however existence is learned).
          ELSE IF On("P:UploadOnlyIfAbsent") /\ (o.kind = "snap" /\ e.f = FamOfU(o.u)
-                    /\ (e.c \in o.had \/ (<<e.f, e.c>> \in s.chunks /\ Tokens(o, <<e.f, e.c>>) = 0))) THEN "P:UploadOnlyIfAbsent"
+                    /\ (e.c \in o.had \/ (<<e.f, e.c>> \in o.mine /\ <<e.f, e.c>> \in s.chunks /\ Tokens(o, <<e.f, e.c>>) = 0))) THEN "P:UploadOnlyIfAbsent"
          ELSE IF On("P:RepeatTransfersNothing") /\ (o.kind = "snap" /\ o.repeat) THEN "P:RepeatTransfersNothing"
          ELSE IF On("P:NoAlias") /\ (o.kind = "snap" /\ e.f # FamOfU(o.u)) THEN "P:NoAlias"
          ELSE IF On("P:Safety") /\ (~SafetyOf(n.chunks, n.bad, n.snaps, Body)) THEN "P:Safety"
